@@ -214,6 +214,21 @@ def gen_nearmiss(rng):
     return "".join(rng.choice(IDCHARS) for _ in range(n)), "random"
 
 
+def gen_blank_complex(rng):
+    """a blank (ASCII: constructor only; non-ASCII: readable) before a two-part complex text whose parts are special
+    words in any capitalisation or floats that may overflow: the capitalisation checks then see shifted slices"""
+    def part():
+        q = rng.random()
+        if q < 0.45:
+            return case_mut(rng, rng.choice(["inf", "nan", "infinity"]))
+        if q < 0.55:
+            return rng.choice(["Inf", "NaN"])
+        return rng.choice(["1", "5.5", ".9", "535.34435"]) + rng.choice(["", "e400", "E+967", "e308", "e309", "e-400", "e+5", "e-5"])
+    blank = rng.choice([" ", "\t", "\x0b", "\x0c", "\xa0", "\u2009", "\x85", "(", ""])
+    t = blank + rng.choice(["", "+", "-"]) + part() + rng.choice("+-") + part() + rng.choice("jJ")
+    return t, "blank-complex"
+
+
 def gen_ctor_only(rng):
     """texts only as_identifier(reader=None) can see: whitespace, parentheses, ..."""
     core = rng.choice([gen_pylit(rng)[0], gen_extension(rng)[0], "1+2j", "j", "a", "1"])
@@ -396,6 +411,15 @@ def run(chk):
 
     n = 400000 if thorough else 24000
     cases = []
+    # corpus: texts on which a past run of the model and the implementation disagreed (run first).  The second
+    # capitalisation check of Complex.__new__ sees everything after the first sign, and isinf() also holds for an
+    # imaginary part that overflows; with a leading blank the first check sees only the blank.
+    T = 2 ** 1024 - 2 ** 970     # the smallest decimal that rounds to infinity
+    for t in ["\x0b-inf+535.34435e400J", "\x0c+iNf+.9E+967J", "\xa0-inf+5e400j", "\xa0inf+1j", " inf+1e400j", " Inf+1e400j",
+              "\xa0inf+%dj" % T, "\xa0inf+%dj" % (T - 1), "\xa0inf+%d.5e-1j" % (10 * T), "\xa0inf+%de-3j" % (1000 * T - 1),
+              "\xa0inf+1e309j", "\xa0inf+1e308j", "\xa0inf+0e999j", "\xa0inf+0.000001e315j", "\xa0inf+17976931348623158e292j",
+              "\xa0inf+17976931348623157e292j", "1e400+infj", "\xa01e400+infj", "\xa0nan+1e400j"]:
+        cases.append((t, "corpus"))
     # every placement of one separator inside or after the documented special spellings
     for w in ["NaN", "Inf", "-Inf", "+Inf", "-NaN", "+NaN"]:
         for i in range(1, len(w) + 1):
@@ -412,8 +436,11 @@ def run(chk):
         elif q < 0.92:
             t, k = gen_nearmiss(rng)
             cases.append((t, "near:" + k))
-        else:
+        elif q < 0.96:
             t, k = gen_ctor_only(rng)
+            cases.append((t, k))
+        else:
+            t, k = gen_blank_complex(rng)
             cases.append((t, k))
     import itertools
     for L in range(1, 5 if thorough else 4):
